@@ -43,6 +43,9 @@ ORIGIN = {
     'dupbind': 'try:\n    from ._speedups import O\nexcept ImportError:\n    pass\n',
     # a valid import cycle: the defining module imports the package / re-exporter after its own definitions
     'imports-back': 'import p\nfrom p import rx as _rx0\n',
+    # the re-exporter gets the object through an intermediate module that merely imports it; the DEFINING module lists it in its own __all__
+    # (the statement's condition is about the module the name is imported FROM: the intermediate one, which has no __all__)
+    'via-compat': '__all__ = ["O"]\n',
 }
 # where the object is defined and what the re-exporting module is called: 'sibling' = defined in p._impl, re-exported by p.rx;
 # 'sibling:Ox' = the re-exporter's name begins with the object's name; 'initdef:*' = defined in the package __init__ itself
@@ -143,6 +146,9 @@ def _program(kind: str, rex: str, form: str, origin: str, consumers: Sequence[st
     if form == 'star' and origin == 'all-without':
         # a star import only sees the names of the origin's __all__: the object would not be imported at all
         imp = 'from ._impl import O\n'
+    if origin == 'via-compat':
+        mods['_compat'] = 'from ._impl import O\n' if form != 'star' else 'from ._impl import *\n'
+        imp = imp.replace('from ._impl import', 'from ._compat import')
     rex_src = (f'__all__ = ["{exported}"]\n' + imp) if allform == 'before-import' else imp + ALLFORMS[allform or 'list'].replace('{E}', exported)
     if rex == 'init':
         mods['p'] = rex_src
@@ -205,6 +211,15 @@ def judge_build(s: Any, kind: str, new_full: str, cons: Sequence[Tuple[str, str,
         found = None
     if found is not O:
         probs.append(('old-qualified-name-does-not-lead-to-object', '-'))
+    if kind.startswith('class'):
+        for member in (['m', 'N', 'N.__doc__'][:2] if kind == 'class' else ['m']):
+            try:
+                fm = s.find_object(f'{DEF[0]}.O.{member}')
+            except LookupError:
+                fm = None
+            if fm is not s.allobjects.get(f'{new_full}.{member}'):
+                probs.append(('old-qualified-name-of-member-does-not-lead-to-it', '-'))
+                break
     for cname, ctype, L in cons:
         # imported from both locations: the LAST import binds the name, so the case is judged (and named) like that consumer type
         ctype = {'both-reexporter-first': 'definer', 'both-definer-first': 'reexporter'}.get(ctype, ctype) + ('/after-both-imports' if ctype.startswith('both') else '')
@@ -332,7 +347,7 @@ def run_job(job: Any, tier: str) -> Dict[str, Any]:
     if job[0] == 'single':
         _, kind, rex, form = job
         for origin in ORIGIN:
-            if rex.startswith('initdef') and origin in ('imports-back', 'dupbind'):
+            if rex.startswith('initdef') and origin in ('imports-back', 'dupbind', 'via-compat'):
                 continue        # written for a separate defining module
             for consumer in CONSUMERS:
                 if consumer == 'star-definer' and origin == 'all-without':
